@@ -793,6 +793,9 @@ def _gp_hyp(
 
     # Get high posterior density dataset.
     hpd_X, hpd_y, _, _ = get_hpd(X, y, options["hpd_frac"])
+    if hpd_X.shape[0] == 0:
+        # (a very small training set and hpd_frac < 0.5 round to zero points)
+        hpd_X, hpd_y = X, y
     D = hpd_X.shape[1]
     # s2 = None
 
